@@ -197,6 +197,18 @@ add("C18",
     "unsupported fields are refused.",
     "rotation matrices built with Rodrigues / elementary rotations (no scipy); the half-cell boundary band is not asserted.")
 
+add("C19",
+    "Hypothesis-generated textures, hedgehogs, random fields and cuboids; metamorphic relations (invariances, sign "
+    "reversal), integrality on compact textures, real-space trace and demagnetising-factor sum rules, differential "
+    "check of the two tensor implementations",
+    "Generated-input search: both charge methods under vector rotation, length rescaling, mesh rescaling/translation, "
+    "sample quarter turn, reversal, masks, uniform fields; Berg-Luescher integer (= -Q) on resolved compact textures; "
+    "hedgehog counted as exactly one Bloch point with the right polarity along x, y, z on anisotropic cells with and "
+    "without a spherical sample; neighbouring-cell angles against arccos of unit vectors and the shifted mesh; demag "
+    "tensor trace -delta in real space and |trace(k)| = 1, implementation agreement, factor sum -1 (cube: -1/3).",
+    "resolution requirements calibrated (>= 8|Q| cells across, >= 3 cells margin); max_neighbouring_cell_angle is not "
+    "part of the property and not asserted.")
+
 PENDING = {}
 
 
